@@ -40,10 +40,11 @@ VARIABLES
   ncalls,
   expiredSeen,\* FixF6: the deadline was seen expired before the previous poll
   pollT0, pollTmo, pollOver, pollDl,  \* posix::poll state: call instant, timeout, overflow, own deadline
-  blocked     \* the library is known to be waiting in its current system call
+  blocked,    \* the library is known to be waiting in its current system call
+  hadTl       \* a time limit has been set on this Communicator (limits can be changed but not unset)
 
 lvars == <<pc, outRef, errRef, outvec, errvec, ready, ncalls, expiredSeen, pollT0, pollTmo, pollOver, pollDl,
-           blocked>>
+           blocked, hadTl>>
 vars == <<envvars, lvars>>
 
 Ids(s, from, n) == [i \in 1..n |-> (CASE s = "in" -> 40000 [] s = "out" -> 0 [] s = "err" -> 20000) + from + i]
@@ -55,7 +56,7 @@ Init ==
   /\ EnvInit(Piped, Cap, K, ShortIO, InputSeq, FALSE)
   /\ pc = "idle" /\ outRef = FALSE /\ errRef = FALSE /\ outvec = <<>> /\ errvec = <<>>
   /\ ready = <<FALSE, FALSE, FALSE>> /\ ncalls = 0 /\ expiredSeen = FALSE
-  /\ pollT0 = <<0, 0>> /\ pollTmo = -1 /\ pollOver = FALSE /\ pollDl = NoTime /\ blocked = FALSE
+  /\ pollT0 = <<0, 0>> /\ pollTmo = -1 /\ pollOver = FALSE /\ pollDl = NoTime /\ blocked = FALSE /\ hadTl = FALSE
 
 \* ---------------------------------------------------------------- environment moves
 ChildOps ==
@@ -80,13 +81,16 @@ EnvNext ==
 
 \* ---------------------------------------------------------------- the library
 Total == Len(outvec) + Len(errvec)
-LU == UNCHANGED <<outRef, errRef, outvec, errvec, ready, ncalls, expiredSeen, pollT0, pollTmo, pollOver, pollDl>>
+LU == UNCHANGED <<outRef, errRef, outvec, errvec, ready, ncalls, expiredSeen, pollT0, pollTmo, pollOver, pollDl, hadTl>>
 
 \* Communicator::read -> RawCommunicator::read -> read_into prologue
 LCall ==
   /\ pc = "idle" /\ ncalls < MaxCalls
   /\ \E lim \in Limits, tl \in TLims :
+       /\ lim < 0 => limit < 0          \* limit_size / limit_time replace a limit, nothing removes one
+       /\ tl < 0 => ~hadTl
        /\ Call(lim, IF tl < 0 THEN NoTime ELSE MsT(tl))
+       /\ hadTl' = (hadTl \/ tl >= 0)
   /\ pc' = "top"
   /\ outRef' = pOpen["out"] /\ errRef' = pOpen["err"]
   /\ outvec' = <<>> /\ errvec' = <<>> /\ expiredSeen' = FALSE /\ blocked' = FALSE
@@ -100,7 +104,7 @@ LTop ==
      ELSE IF FixF6 /\ expiredSeen THEN pc' = "ret_to" /\ UNCHANGED expiredSeen
      ELSE /\ pc' = "maybe_poll"
           /\ expiredSeen' = (dl # NoTime /\ TLe(dl, now))
-  /\ UNCHANGED <<envvars, outRef, errRef, outvec, errvec, ready, ncalls, pollT0, pollTmo, pollOver, pollDl, blocked>>
+  /\ UNCHANGED <<envvars, outRef, errRef, outvec, errvec, ready, ncalls, pollT0, pollTmo, pollOver, pollDl, blocked, hadTl>>
 
 PolledSet == (IF pOpen["in"] THEN {"in"} ELSE {}) \cup (IF outRef THEN {"out"} ELSE {})
              \cup (IF errRef THEN {"err"} ELSE {})
@@ -122,7 +126,7 @@ LMaybePoll ==
              /\ pollOver' = (t > PollMax)
              /\ pollTmo' = IF t > PollMax THEN PollMax ELSE t
           /\ UNCHANGED ready
-  /\ UNCHANGED <<envvars, outRef, errRef, outvec, errvec, ncalls, expiredSeen, blocked>>
+  /\ UNCHANGED <<envvars, outRef, errRef, outvec, errvec, ncalls, expiredSeen, blocked, hadTl>>
 
 Flag(rev, s, fl) == s \in DOMAIN rev /\ rev[s] \cap fl # {}
 
@@ -147,13 +151,13 @@ LPoll ==
                 /\ pollTmo' = IF t > PollMax THEN PollMax ELSE t
              /\ pollT0' = now /\ pc' = "poll" /\ UNCHANGED ready
   /\ blocked' = FALSE
-  /\ UNCHANGED <<outRef, errRef, outvec, errvec, ncalls, expiredSeen, pollDl>>
+  /\ UNCHANGED <<outRef, errRef, outvec, errvec, ncalls, expiredSeen, pollDl, hadTl>>
 
 LPolled ==
   /\ pc = "polled"
   /\ pc' = IF ready = <<FALSE, FALSE, FALSE>> THEN "ret_to" ELSE "io_in"
   /\ UNCHANGED <<envvars, outRef, errRef, outvec, errvec, ready, ncalls, expiredSeen, pollT0, pollTmo, pollOver,
-                 pollDl, blocked>>
+                 pollDl, blocked, hadTl>>
 
 WriteChunk == LET rest == Drop(input, Len(inAcc) - pwDone) IN Prefix(rest, Min(WriteSize, Len(rest)))
 WriteWouldBlock ==
@@ -196,7 +200,7 @@ LRead(s, flagIdx, nextpc) ==
                ELSE /\ errvec' = errvec \o ids /\ errRef' = (errRef /\ ids # <<>>)
                     /\ UNCHANGED <<outvec, outRef>>
             /\ pc' = nextpc /\ blocked' = FALSE
-  /\ UNCHANGED <<ready, ncalls, expiredSeen, pollT0, pollTmo, pollOver, pollDl>>
+  /\ UNCHANGED <<ready, ncalls, expiredSeen, pollT0, pollTmo, pollOver, pollDl, hadTl>>
 
 \* the library waits in a system call that cannot complete yet
 LBlock ==
@@ -208,14 +212,14 @@ LBlock ==
      \/ pc = "io_err" /\ ready[3] /\ ~(limit >= 0 /\ Total >= limit) /\ buf["err"] = <<>> /\ cOpen["err"]
   /\ PBlock
   /\ blocked' = TRUE
-  /\ UNCHANGED <<pc, outRef, errRef, outvec, errvec, ready, ncalls, expiredSeen, pollT0, pollTmo, pollOver, pollDl>>
+  /\ UNCHANGED <<pc, outRef, errRef, outvec, errvec, ready, ncalls, expiredSeen, pollT0, pollTmo, pollOver, pollDl, hadTl>>
 
 LRet ==
   /\ pc \in {"ret_ok", "ret_to", "ret_err"}
   /\ Ret(CASE pc = "ret_ok" -> "ok" [] pc = "ret_to" -> "timedout" [] OTHER -> "oserr",
          pOpen["out"], outvec, pOpen["err"], errvec)
   /\ pc' = "idle" /\ ncalls' = ncalls + 1 /\ blocked' = FALSE
-  /\ UNCHANGED <<outRef, errRef, outvec, errvec, ready, expiredSeen, pollT0, pollTmo, pollOver, pollDl>>
+  /\ UNCHANGED <<outRef, errRef, outvec, errvec, ready, expiredSeen, pollT0, pollTmo, pollOver, pollDl, hadTl>>
 
 \* the caller drops the Communicator: the remaining descriptors are closed
 LDrop ==
